@@ -132,6 +132,11 @@ def run_post(idnt, post):
             idnt.fit_model()
         elif post == "initparams":
             idnt.get_initial_fit_parameters()
+        elif post == "ancillaries":
+            idnt.get_ancillary_parameters()
+            idnt.get_initial_fit_parameters(
+                model_key=idnt.fit_properties.get("model_key"),
+                common_ancillaries=True, model_ancillaries=True)
 
 
 def observe_fit(idnt, kwargs, label="", post=None, fault=False):
